@@ -66,89 +66,89 @@ func seqExprs(fams []func(k int) string, ks []int) []exprCase {
 // Families over the core constructs (C01): each is the identity on, or a simple
 // function of, the value of a / b, so that a wrong answer is visible on small documents.
 var pumpCore = []pumpFam{
-	{"", "(", "a", ")", ""},              // redundant parentheses
-	{"", "(", "a", ")", ".b"},            // ... followed by a step
-	{"b | ", "(", "a", ")", ""},          // nesting on the right of a pipe
-	{"", "[", "a", "]", ""},              // nested one-member lists
-	{"", "[", "a", "][0]", ""},           // wrap and unwrap
-	{"", "{x: ", "a", "}.x", ""},         // nested one-member hashes, unwrapped
-	{"", "{x: ", "a", "}", ""},           // nested hashes
-	{"@", ".[@][0]", "", "", ".a"},       // dot-introduced list, then index, in a row
-	{"@", ".{x: @}.x", "", "", ".a"},     // dot-introduced hash, then field, in a row
-	{"@", " | @", "", "", " | a"},        // pipes in a row
-	{"a", " || a", "", "", ""},           // ors in a row
-	{"a", " && a", "", "", ""},           // ands in a row
-	{"b", " || a", "", "", ""},           //
-	{"", "!", "a", "", ""},               // nots in a row
-	{"", "!(", "a", ")", ""},             // nested nots
-	{"", "to_array(", "a", ")", ""},      // nested calls (idempotent)
-	{"", "not_null(", "a", ")", ""},      //
-	{"", "not_null(b, ", "a", ")", ""},   // nested calls, two arguments
-	{"", "[b, ", "a", "]", ""},           // nested two-member lists
-	{"", "{x: b, y: ", "a", "}", ""},     // nested two-member hashes
-	{"a", "[0]", "", "", ""},             // indices in a row
-	{"a", "[-1]", "", "", ""},            //
-	{"c", ".c", "", "", ""},              // fields in a row (documents nest c a few levels)
-	{"a", " == a", "", "", ""},           // comparators in a row (left-associative)
-	{"", "[", "`1`", "]", ""},            // nested literals lists
-	{"'x'", " | 'x'", "", "", ""},        // raw strings in a row
-	{"", "(", "@", ")", " == a"},         //
-	{"a.", "[", "@", "][0]", ""},         // dot rhs list nesting
+	{"", "(", "a", ")", ""},                 // redundant parentheses
+	{"", "(", "a", ")", ".b"},               // ... followed by a step
+	{"b | ", "(", "a", ")", ""},             // nesting on the right of a pipe
+	{"", "[", "a", "]", ""},                 // nested one-member lists
+	{"", "[", "a", "][0]", ""},              // wrap and unwrap
+	{"", "{x: ", "a", "}.x", ""},            // nested one-member hashes, unwrapped
+	{"", "{x: ", "a", "}", ""},              // nested hashes
+	{"@", ".[@][0]", "", "", ".a"},          // dot-introduced list, then index, in a row
+	{"@", ".{x: @}.x", "", "", ".a"},        // dot-introduced hash, then field, in a row
+	{"@", " | @", "", "", " | a"},           // pipes in a row
+	{"a", " || a", "", "", ""},              // ors in a row
+	{"a", " && a", "", "", ""},              // ands in a row
+	{"b", " || a", "", "", ""},              //
+	{"", "!", "a", "", ""},                  // nots in a row
+	{"", "!(", "a", ")", ""},                // nested nots
+	{"", "to_array(", "a", ")", ""},         // nested calls (idempotent)
+	{"", "not_null(", "a", ")", ""},         //
+	{"", "not_null(b, ", "a", ")", ""},      // nested calls, two arguments
+	{"", "[b, ", "a", "]", ""},              // nested two-member lists
+	{"", "{x: b, y: ", "a", "}", ""},        // nested two-member hashes
+	{"a", "[0]", "", "", ""},                // indices in a row
+	{"a", "[-1]", "", "", ""},               //
+	{"c", ".c", "", "", ""},                 // fields in a row (documents nest c a few levels)
+	{"a", " == a", "", "", ""},              // comparators in a row (left-associative)
+	{"", "[", "`1`", "]", ""},               // nested literals lists
+	{"'x'", " | 'x'", "", "", ""},           // raw strings in a row
+	{"", "(", "@", ")", " == a"},            //
+	{"a.", "[", "@", "][0]", ""},            // dot rhs list nesting
 	{"", "length(to_array(", "a", "))", ""}, // two-call nesting (always 1)
 }
 
 var pumpCoreSeq = []func(k int) string{
-	seqFam("[", "a", ", ", "]"),             // k-member list
-	seqFam("[", "a.[b]", ", ", "]"),         // k members each a dot-list
-	seqFam("[", "a.{x: b}", ", ", "]"),      // k members each a dot-hash
-	seqFam("[", "[a]", ", ", "]"),           // k members each a list
-	seqFam("[", "(a)", ", ", "]"),           // k parenthesised members
-	seqFam("[", "!a", ", ", "]"),            //
-	seqFam("[", "a | b", ", ", "]"),         //
-	seqFam("[", "a || b", ", ", "]"),        //
-	seqFam("[", "a == b", ", ", "]"),        //
-	seqFam("[", "a[0]", ", ", "]"),          //
-	seqFam("[", "to_array(a)", ", ", "]"),   // k calls
+	seqFam("[", "a", ", ", "]"),              // k-member list
+	seqFam("[", "a.[b]", ", ", "]"),          // k members each a dot-list
+	seqFam("[", "a.{x: b}", ", ", "]"),       // k members each a dot-hash
+	seqFam("[", "[a]", ", ", "]"),            // k members each a list
+	seqFam("[", "(a)", ", ", "]"),            // k parenthesised members
+	seqFam("[", "!a", ", ", "]"),             //
+	seqFam("[", "a | b", ", ", "]"),          //
+	seqFam("[", "a || b", ", ", "]"),         //
+	seqFam("[", "a == b", ", ", "]"),         //
+	seqFam("[", "a[0]", ", ", "]"),           //
+	seqFam("[", "to_array(a)", ", ", "]"),    // k calls
 	seqFam("[", "not_null(b, a)", ", ", "]"), //
-	seqFam("[", "'x'", ", ", "]"),           // k raw strings
-	seqFam("[", "`[1]`", ", ", "]"),         // k literals
-	seqFam("[", "\"a\"", ", ", "]"),         // k quoted identifiers
-	seqFam("not_null(", "b", ", ", ", a)"),  // k+1 arguments
-	seqFam("a.[", "@", ", ", "]"),           //
+	seqFam("[", "'x'", ", ", "]"),            // k raw strings
+	seqFam("[", "`[1]`", ", ", "]"),          // k literals
+	seqFam("[", "\"a\"", ", ", "]"),          // k quoted identifiers
+	seqFam("not_null(", "b", ", ", ", a)"),   // k+1 arguments
+	seqFam("a.[", "@", ", ", "]"),            //
 }
 
 // Families over projections (C02). Object wildcards are left out: k unordered iterations in one
 // expression have 2^k admissible outcomes (the reference evaluator enumerates member orders).
 var pumpProj = []pumpFam{
-	{"a", "[]", "", "", ""},              // flattens in a row
-	{"a", " | []", "", "", ""},           // piped flattens
-	{"a", "[*]", "", "", ""},             // nested list wildcards
-	{"a[*]", ".[@][0]", "", "", ""},      // long right-hand side
-	{"a[*]", " | @", "", "", ""},         // pipes after a projection
-	{"a", "[?@]", "", "", ""},            // filters in a row
-	{"a", " | [?@]", "", "", ""},         //
-	{"a", "[:]", "", "", ""},             // slices in a row
-	{"a", " | [:]", "", "", ""},          //
-	{"a", " | [*]", "", "", ""},          //
-	{"", "(", "a[*]", ")", "[0]"},        // a closed projection, then an index
-	{"", "(", "a[]", ")", ""},            //
-	{"", "[", "a[*]", "]", ""},           // projection nested in lists
-	{"a[*].", "[", "@", "][0]", ""},      // nested lists as right-hand side
-	{"a[?", "(", "@", ")", "]"},          // nested parentheses in a filter condition
-	{"a[?", "!", "@", "", "]"},           //
-	{"a", "[*] | @", "", "", ""},         //
-	{"a[*]", "[0]", "", "", ""},          // indices as right-hand side
-	{"a[]", ".c", "", "", ""},            //
+	{"a", "[]", "", "", ""},         // flattens in a row
+	{"a", " | []", "", "", ""},      // piped flattens
+	{"a", "[*]", "", "", ""},        // nested list wildcards
+	{"a[*]", ".[@][0]", "", "", ""}, // long right-hand side
+	{"a[*]", " | @", "", "", ""},    // pipes after a projection
+	{"a", "[?@]", "", "", ""},       // filters in a row
+	{"a", " | [?@]", "", "", ""},    //
+	{"a", "[:]", "", "", ""},        // slices in a row
+	{"a", " | [:]", "", "", ""},     //
+	{"a", " | [*]", "", "", ""},     //
+	{"", "(", "a[*]", ")", "[0]"},   // a closed projection, then an index
+	{"", "(", "a[]", ")", ""},       //
+	{"", "[", "a[*]", "]", ""},      // projection nested in lists
+	{"a[*].", "[", "@", "][0]", ""}, // nested lists as right-hand side
+	{"a[?", "(", "@", ")", "]"},     // nested parentheses in a filter condition
+	{"a[?", "!", "@", "", "]"},      //
+	{"a", "[*] | @", "", "", ""},    //
+	{"a[*]", "[0]", "", "", ""},     // indices as right-hand side
+	{"a[]", ".c", "", "", ""},       //
 }
 
 var pumpProjSeq = []func(k int) string{
-	seqFam("[", "a[]", ", ", "]"),       // k bare flattens as siblings
-	seqFam("[", "a[*]", ", ", "]"),      // k bare wildcards
-	seqFam("[", "a[?@]", ", ", "]"),     // k bare filters
-	seqFam("[", "a[:]", ", ", "]"),      // k bare slices
-	seqFam("[", "a[*].b", ", ", "]"),    // k projections with a right-hand side
-	seqFam("[", "a[].b", ", ", "]"),     //
-	seqFam("[", "a[?b].b", ", ", "]"),   //
-	seqFam("[", "a[0][]", ", ", "]"),    //
-	seqFam("[", "[]", ", ", "]"),        // k flattens of the current node
+	seqFam("[", "a[]", ", ", "]"),     // k bare flattens as siblings
+	seqFam("[", "a[*]", ", ", "]"),    // k bare wildcards
+	seqFam("[", "a[?@]", ", ", "]"),   // k bare filters
+	seqFam("[", "a[:]", ", ", "]"),    // k bare slices
+	seqFam("[", "a[*].b", ", ", "]"),  // k projections with a right-hand side
+	seqFam("[", "a[].b", ", ", "]"),   //
+	seqFam("[", "a[?b].b", ", ", "]"), //
+	seqFam("[", "a[0][]", ", ", "]"),  //
+	seqFam("[", "[]", ", ", "]"),      // k flattens of the current node
 }
